@@ -182,7 +182,7 @@ func (g *Gen) has(path string) bool {
 }
 
 func (g *Gen) shapeLen(path string) int {
-	if sn, ok := g.shapes[path]; ok {
+	if sn, ok := g.shapes[strings.TrimLeft(path, "*")]; ok {
 		return sn
 	}
 	if g.c != nil {
@@ -209,7 +209,7 @@ func (g *Gen) array(path string, bits int) (int, func(i int) uint64) {
 	} else {
 		n = g.rnd.Intn(g.small + 1)
 	}
-	if sn, ok := g.shapes[path]; ok {
+	if sn, ok := g.shapes[strings.TrimLeft(path, "*")]; ok {
 		// fixed-shape parameter: elements are scalars named path[i]
 		return sn, func(i int) uint64 { return g.scalar(fmt.Sprintf("%s[%d]", path, i), bits) }
 	}
@@ -262,12 +262,18 @@ func runOnce(g *Gen, body func(g *Gen), limit time.Duration) (out Outcome) {
 				case vc.Skip:
 					o = Outcome{Kind: "skip", Detail: e.Label}
 				default:
-					o = Outcome{Kind: "panic", Detail: fmt.Sprint(r)}
+					if !vc.Called {
+						// a run-time panic while evaluating the preconditions: the input is outside the domain
+						o = Outcome{Kind: "skip", Detail: "precondition not evaluable: " + fmt.Sprint(r)}
+					} else {
+						o = Outcome{Kind: "panic", Detail: fmt.Sprint(r)}
+					}
 				}
 			}
 			o.Inputs = g.Used
 			done <- o
 		}()
+		vc.Called = false
 		body(g)
 		o = Outcome{Kind: "pass"}
 	}()
